@@ -44,6 +44,9 @@ pub struct C04Case
     pub plan: CheckPlan,
     pub extras: bool,
     pub pre_edited: bool,
+    /// TMPDIR points at a directory that does not exist (under a writable parent inside the sandbox)
+    #[serde(default)]
+    pub missing_tmpdir: bool,
 }
 
 pub fn strategy() -> BoxedStrategy<C04Case>
@@ -74,8 +77,8 @@ pub fn strategy() -> BoxedStrategy<C04Case>
         p_preamble: 10,
         ..StmtParams::default()
     };
-    (model_tree(StructSel::AnyOrOmitted, p, 4, 6, true), lock, cache, ext, breakage, plan, any::<bool>(), prop_oneof![4 => Just(false), 1 => Just(true)])
-        .prop_map(|(mut tree, lock, cache, ext, breakage, plan, extras, pre_edited)| {
+    (model_tree(StructSel::AnyOrOmitted, p, 4, 6, true), lock, cache, ext, breakage, plan, any::<bool>(), prop_oneof![4 => Just(false), 1 => Just(true)], prop_oneof![5 => Just(false), 1 => Just(true)])
+        .prop_map(|(mut tree, lock, cache, ext, breakage, plan, extras, pre_edited, missing_tmpdir)| {
             tree.lock = lock;
             tree.cfg.use_cache = cache;
             tree.cfg.extensions = ext;
@@ -85,6 +88,7 @@ pub fn strategy() -> BoxedStrategy<C04Case>
                 plan,
                 extras,
                 pre_edited,
+                missing_tmpdir,
             }
         })
         .boxed()
@@ -160,8 +164,25 @@ pub fn check(case: &C04Case) -> CaseOutcome
     }
     // recording run (also judged)
     let mut runs: Vec<(String, RunResult, Vec<String>)> = Vec::new();
+    let tmpdir = if case.missing_tmpdir { sb.root.join("job-scratch").join("breadlog") } else { sb.tmp() };
+    let run_check = |plan: Option<String>| {
+        run_breadlog(&RunSpec {
+            check: true,
+            cwd: sb.proj(),
+            config_arg: "Breadlog.yaml".to_string(),
+            tmpdir: tmpdir.clone(),
+            plan,
+            trace: true,
+            roots: vec![sb.root.clone()],
+            timeout: std::time::Duration::from_secs(120),
+        })
+    };
+    if case.missing_tmpdir
+    {
+        o.class("tmpdir-does-not-exist");
+    }
     let before = snapshot(&sb.root);
-    let rec = shim_run(&sb, true, None);
+    let rec = run_check(None);
     let after = snapshot(&sb.root);
     let diff = snapshot_diff(&before, &after, true, &|_| false);
     runs.push(("no plan".into(), rec.clone(), diff));
@@ -194,7 +215,7 @@ pub fn check(case: &C04Case) -> CaseOutcome
     if let Some(p) = plan
     {
         let before = snapshot(&sb.root);
-        let r = shim_run(&sb, true, Some(p.clone()));
+        let r = run_check(Some(p.clone()));
         let after = snapshot(&sb.root);
         let diff = snapshot_diff(&before, &after, true, &|_| false);
         runs.push((p, r, diff));
@@ -321,7 +342,7 @@ pub fn run(env: &Env, rec: &Recorder) -> (String, Vec<&'static str>)
 {
     pbt(env, rec, "check-mode", env.cases(2500, 40_000), &strategy, &check);
     (
-        "modelled trees (1-4 files, decoys, directives) x configuration (macros, structured on/off/omitted, use_cache on/off/omitted, extensions) x lock (absent, valid, corrupt, empty, negative) x breakage (none, no files in scope, missing source dir, source dir is a file, invalid YAML, missing config) x extra entries (non-source files, symlinks to file and directory, empty dir, stale scratch files of different ages in TMPDIR and in the project, file outside the project) x fault plan (none, SIGTERM/SIGINT at a generated operation, injected read-side I/O failure); 20 % of trees pre-edited so nothing is missing. Oracle: (1) snapshot of the whole sandbox (project, TMPDIR, cwd, outside) identical incl. mtime and inode; (2) the libc-level trace contains no mutating call on any path; (3) for a 4 % sample the same run under strace -f shows no mutating file system call either (validates the interposer's view). Non-trivial = distinct case with a missing reference, a non-default configuration point, a broken configuration or a fault plan".to_string(),
+        "modelled trees (1-4 files, decoys, directives) x configuration (macros, structured on/off/omitted, use_cache on/off/omitted, extensions) x lock (absent, valid, corrupt, empty, negative) x breakage (none, no files in scope, missing source dir, source dir is a file, invalid YAML, missing config) x extra entries (non-source files, symlinks to file and directory, empty dir, stale scratch files of different ages in TMPDIR and in the project, file outside the project, TMPDIR pointing at a directory that does not exist) x fault plan (none, SIGTERM/SIGINT at a generated operation, injected read-side I/O failure); 20 % of trees pre-edited so nothing is missing. Oracle: (1) snapshot of the whole sandbox (project, TMPDIR, cwd, outside) identical incl. mtime and inode; (2) the libc-level trace contains no mutating call on any path; (3) for a 4 % sample the same run under strace -f shows no mutating file system call either (validates the interposer's view). Non-trivial = distinct case with a missing reference, a non-default configuration point, a broken configuration or a fault plan".to_string(),
         vec!["the interposer sees libc-level calls of the dynamically linked build; a raw syscall() would bypass it (std and async-std use the libc wrappers)"],
     )
 }
